@@ -11,6 +11,7 @@ mod bi;
 mod c01;
 mod fam;
 mod ops_mul;
+mod rat;
 
 use std::io::{BufRead, Write};
 use std::panic::{catch_unwind, AssertUnwindSafe};
@@ -29,6 +30,8 @@ pub struct Case<'a> {
     pub style: &'a str,
     pub dims: Vec<usize>,
     pub bits: Vec<u64>,
+    /// the number tokens as written (type q: exact rationals `[-]hex/hex` or `N`)
+    pub toks: Vec<&'a str>,
 }
 
 fn parse(line: &str) -> Option<Case<'_>> {
@@ -44,10 +47,15 @@ fn parse(line: &str) -> Option<Case<'_>> {
     }
     let nn: usize = it.next()?.parse().ok()?;
     let mut bits = Vec::with_capacity(nn);
+    let mut toks = Vec::with_capacity(nn);
     for _ in 0..nn {
-        bits.push(u64::from_str_radix(it.next()?, 16).ok()?);
+        let t = it.next()?;
+        toks.push(t);
+        if ty != "q" {
+            bits.push(u64::from_str_radix(t, 16).ok()?);
+        }
     }
-    Some(Case { op, ty, fam, style, dims, bits })
+    Some(Case { op, ty, fam, style, dims, bits, toks })
 }
 
 // 1-D container types by family and size
@@ -187,7 +195,10 @@ macro_rules! merge_arms {
 macro_rules! dispatch_impl {
     ($name:ident, $V:ty) => {
         fn $name(c: &Case) -> Out<$V> {
-            let x: Vec<$V> = c.bits.iter().map(|&b| <$V as Vf>::fb(b)).collect();
+            let x: Vec<$V> = match c.toks.iter().map(|t| <$V as Vf>::ft(t)).collect::<Option<Vec<$V>>>() {
+                Some(x) => x,
+                None => return Out::Bad("unparsable number".into()),
+            };
             let x = &x[..];
             let d = |i: usize| -> usize { c.dims.get(i).copied().unwrap_or(0) };
             let (fam, style) = (c.fam, c.style);
@@ -282,6 +293,7 @@ macro_rules! dispatch_impl {
 
 dispatch_impl!(dispatch_f64, f64);
 dispatch_impl!(dispatch_f32, f32);
+dispatch_impl!(dispatch_q, rat::Rat);
 
 fn fmt_out<V: Vf>(o: Out<V>) -> String {
     match o {
@@ -289,7 +301,7 @@ fn fmt_out<V: Vf>(o: Out<V>) -> String {
             let mut s = String::from("OK");
             for x in v {
                 s.push(' ');
-                s.push_str(&format!("{:x}", x.tb()));
+                s.push_str(&x.tt());
             }
             s
         }
@@ -320,6 +332,10 @@ fn run_case(c: &Case) -> String {
     match c.ty {
         "f64" => fmt_out(dispatch_f64(c)),
         "f32" => fmt_out(dispatch_f32(c)),
+        "q" => {
+            rat::reset_arena();
+            fmt_out(dispatch_q(c))
+        }
         _ => format!("BAD type {}", c.ty),
     }
 }
